@@ -1128,6 +1128,12 @@ func (fr *Frame) doPanic(st *State, t *ssa.Panic) {
 			msg = "panic(" + c.Value.ExactString() + ")"
 		}
 	}
+	if fr.v.allowPanic {
+		// "option panics-allowed": an explicit panic is a documented way to refuse the input; the path ends
+		// here and the postconditions speak about normal returns only
+		fr.v.assume("explicit panics are accepted as refusals (option panics-allowed): postconditions cover normal returns only")
+		return
+	}
 	fr.oblige(st, "panic", fr.v.F.False(), msg+" must be unreachable")
 }
 
